@@ -8,6 +8,11 @@
 //	region id:start:end:confver:version | regions n idstart idstep width | delregion id | loadregion id
 //	loadregions plain|prune [errpattern]
 //	flush | close (Close + reopen) | crash (leveldb closed without flushing the batch, reopened)
+//	weights n start step      SaveStoreWeight for n stores (bit patterns 1.5+k ulp / 2.0+k ulp)
+//	corrupt id                an unreadable record under the region key of id, written below core.Storage
+//	loadonce [errpattern]     LoadRegionsOnce with CheckAndPutRegion of a fresh BasicCluster
+//	open rsg ; race id        region storage on a leveldb whose journal writes can be parked: DeleteRegion(id) is
+//	                          parked inside its leveldb delete, Flush is started, the delete is released
 //
 // errpattern = string of 0/1, one per LoadRange call of the load (1 = that call fails).
 package main
@@ -22,9 +27,12 @@ import (
 	"sort"
 	"strconv"
 	"strings"
+	"sync"
 	"time"
 
 	"github.com/pingcap/kvproto/pkg/metapb"
+	"github.com/syndtr/goleveldb/leveldb"
+	"github.com/syndtr/goleveldb/leveldb/storage"
 	"github.com/tikv/pd/server/core"
 	"github.com/tikv/pd/server/kv"
 
@@ -52,6 +60,62 @@ func (k *flakyKV) LoadRange(key, endKey string, limit int) ([]string, []string, 
 	return k.Base.LoadRange(key, endKey, limit)
 }
 
+// gate parks the next journal write of the gated leveldb
+type gate struct {
+	mu      sync.Mutex
+	armed   bool
+	parked  chan struct{}
+	release chan struct{}
+}
+
+func (g *gate) arm() {
+	g.mu.Lock()
+	g.armed, g.parked, g.release = true, make(chan struct{}), make(chan struct{})
+	g.mu.Unlock()
+}
+
+func (g *gate) disarm() {
+	g.mu.Lock()
+	g.armed = false
+	g.mu.Unlock()
+}
+
+func (g *gate) pass() {
+	g.mu.Lock()
+	if !g.armed {
+		g.mu.Unlock()
+		return
+	}
+	g.armed = false
+	p, r := g.parked, g.release
+	g.mu.Unlock()
+	close(p)
+	<-r
+}
+
+type gatedStorage struct {
+	storage.Storage
+	g *gate
+}
+
+type gatedWriter struct {
+	storage.Writer
+	g *gate
+}
+
+func (s *gatedStorage) Create(fd storage.FileDesc) (storage.Writer, error) {
+	wr, err := s.Storage.Create(fd)
+	if err != nil || fd.Type != storage.TypeJournal {
+		return wr, err
+	}
+	return &gatedWriter{Writer: wr, g: s.g}, nil
+}
+
+func (w *gatedWriter) Write(p []byte) (int, error) {
+	w.g.pass()
+	return w.Writer.Write(p)
+}
+
 type world struct {
 	base    string
 	seq     int
@@ -63,6 +127,9 @@ type world struct {
 	rs      *core.RegionStorage
 	rsCtx   context.Context
 	rsStop  context.CancelFunc
+	gated   bool // backend rsg
+	gate    *gate
+	gstor   storage.Storage // the file storage below the gated leveldb (closed by the harness)
 	// the region storage flushes in the background 3 s after the last buffered save (checked once per
 	// second); the harness keeps track so that it never races with that timer
 	lastSave time.Time
@@ -73,10 +140,18 @@ func (w *world) closeCurrent() {
 	if w.rs != nil {
 		w.rsStop()
 		w.rs.Close()
+		w.closeGatedFiles()
 		os.RemoveAll(w.rsDir)
 		w.rs = nil
 	}
 	w.st = nil
+}
+
+func (w *world) closeGatedFiles() {
+	if w.gstor != nil {
+		w.gstor.Close()
+		w.gstor = nil
+	}
 }
 
 func (w *world) openRS() {
@@ -84,6 +159,22 @@ func (w *world) openRS() {
 	rs, err := core.NewRegionStorage(w.rsCtx, w.rsDir, nil)
 	if err != nil {
 		panic(err)
+	}
+	if w.gated {
+		// the same RegionStorage on a leveldb opened over a file storage whose journal writes can be parked
+		if err := rs.LeveldbKV.Close(); err != nil {
+			panic(err)
+		}
+		stor, err := storage.OpenFile(w.rsDir, false)
+		if err != nil {
+			panic(err)
+		}
+		w.gate, w.gstor = &gate{}, stor
+		db, err := leveldb.Open(&gatedStorage{Storage: stor, g: w.gate}, nil)
+		if err != nil {
+			panic(err)
+		}
+		rs.LeveldbKV = &kv.LeveldbKV{DB: db}
 	}
 	w.rs = rs
 	w.st = core.NewStorage(w.raw, core.WithRegionStorage(rs))
@@ -214,7 +305,8 @@ func errName(err error) string {
 	if err == nil {
 		return "ok"
 	}
-	if errors.Is(err, errInjected) || strings.Contains(err.Error(), errInjected.Error()) {
+	if errors.Is(err, errInjected) || strings.Contains(err.Error(), errInjected.Error()) ||
+		strings.Contains(err.Error(), "ErrProtoUnmarshal") {
 		return "err"
 	}
 	return "err:" + strings.ReplaceAll(err.Error(), " ", "_")
@@ -226,15 +318,21 @@ func (w *world) listRegions() []ritem {
 	if w.rs != nil {
 		b = w.rs
 	}
-	_, vals, err := b.LoadRange("raft/r/", "raft/r0", 0)
+	keys, vals, err := b.LoadRange("raft/r/", "raft/r0", 0)
 	if err != nil {
 		panic(err)
 	}
 	items := make([]ritem, 0, len(vals))
-	for _, v := range vals {
+	for i, v := range vals {
 		m := &metapb.Region{}
 		if err := m.Unmarshal([]byte(v)); err != nil {
-			panic(err)
+			// an unreadable record: shown as <id>:0:0:0:0 with the id of its key
+			id, perr := strconv.ParseUint(strings.TrimPrefix(keys[i], "raft/r/"), 10, 64)
+			if perr != nil {
+				panic(perr)
+			}
+			items = append(items, ritem{id: id})
+			continue
 		}
 		items = append(items, itemOf(m))
 	}
@@ -277,9 +375,10 @@ func (w *world) exec(op string) string {
 			}
 			w.raw = kv.NewEtcdKVBase(w.etcd.Client, fmt.Sprintf("/verif/storageload/%d", w.seq))
 			w.st = core.NewStorage(w.raw)
-		case "rs":
+		case "rs", "rsg":
 			w.raw = kv.NewMemoryKV()
 			w.rsDir = fmt.Sprintf("%s/rs%d", w.base, w.seq)
+			w.gated = f[1] == "rsg"
 			w.openRS()
 		default:
 			return bad
@@ -333,7 +432,54 @@ func (w *world) exec(op string) string {
 		})
 		return errName(err) + " " + fmtStores(items)
 	case f[0] == "region" && len(f) == 2:
+		if it := itemOf(parseMeta(f[1])); it.s == 0 && it.e == 0 && it.cv == 0 && it.v == 0 {
+			return bad // reserved: this is how an unreadable record is written down
+		}
 		return errName(st.SaveRegion(parseMeta(f[1])))
+	case f[0] == "corrupt" && len(f) == 2:
+		key := fmt.Sprintf("raft/r/%020d", u(f[1]))
+		var b kv.Base = w.raw
+		if w.rs != nil {
+			b = w.rs.LeveldbKV
+		}
+		return errName(b.Save(key, "\xff\xff not a region"))
+	case f[0] == "weights" && len(f) == 4:
+		n, start, step := int(u(f[1])), u(f[2]), u(f[3])
+		for i := 0; i < n; i++ {
+			l := math.Float64frombits(0x3FF8000000000000 + uint64(i))
+			r := math.Float64frombits(0x4000000000000000 + uint64(i))
+			if err := st.SaveStoreWeight(start+uint64(i)*step, l, r); err != nil {
+				return errName(err)
+			}
+		}
+		return "ok"
+	case f[0] == "race" && len(f) == 2:
+		if w.rs == nil || !w.gated {
+			return bad
+		}
+		// DeleteRegion is parked inside its leveldb delete; a Flush is started (it blocks on the storage mutex
+		// or, if Remove does not hold it, behind the parked write inside leveldb); the delete is released.
+		id := u(f[1])
+		w.gate.arm()
+		d1 := make(chan error, 1)
+		go func() { d1 <- st.DeleteRegion(&metapb.Region{Id: id}) }()
+		select {
+		case <-w.gate.parked:
+		case err := <-d1:
+			w.gate.disarm()
+			return "not-parked-" + errName(err)
+		case <-time.After(20 * time.Second):
+			panic("race: the delete neither parked nor returned")
+		}
+		d2 := make(chan error, 1)
+		go func() { d2 <- st.Flush() }()
+		time.Sleep(60 * time.Millisecond)
+		close(w.gate.release)
+		e1, e2 := <-d1, <-d2
+		if e1 != nil || e2 != nil {
+			return "err"
+		}
+		return "ok"
 	case f[0] == "regions" && len(f) == 5:
 		n, start, step, width := int(u(f[1])), u(f[2]), u(f[3]), u(f[4])
 		for i := 0; i < n; i++ {
@@ -391,6 +537,28 @@ func (w *world) exec(op string) string {
 			return errName(err) + " " + fmtRegions("", loaded) + " " + fmtRegions("c", cache) + " " + fmtRegions("k", w.listRegions())
 		}
 		return bad
+	case f[0] == "loadonce" && (len(f) == 1 || len(f) == 2):
+		p := ""
+		if len(f) == 2 {
+			p = f[1]
+		}
+		if p != "" && w.rs != nil {
+			return bad
+		}
+		var loaded []ritem
+		bc := core.NewBasicCluster()
+		err := w.withPattern(p, func() error {
+			return st.LoadRegionsOnce(func(r *core.RegionInfo) []*core.RegionInfo {
+				loaded = append(loaded, itemOf(r.GetMeta()))
+				return bc.CheckAndPutRegion(r)
+			})
+		})
+		var cache []ritem
+		for _, r := range bc.GetRegions() {
+			cache = append(cache, itemOf(r.GetMeta()))
+		}
+		sort.Slice(cache, func(i, j int) bool { return cache[i].id < cache[j].id })
+		return errName(err) + " " + fmtRegions("", loaded) + " " + fmtRegions("c", cache) + " " + fmtRegions("k", w.listRegions())
 	case f[0] == "flush" && len(f) == 1:
 		return errName(st.Flush())
 	case f[0] == "close" && len(f) == 1:
@@ -401,6 +569,7 @@ func (w *world) exec(op string) string {
 			return errName(err)
 		}
 		w.rsStop()
+		w.closeGatedFiles()
 		w.openRS()
 		return "ok"
 	case f[0] == "crash" && len(f) == 1:
@@ -412,6 +581,7 @@ func (w *world) exec(op string) string {
 		if err := w.rs.LeveldbKV.Close(); err != nil {
 			return errName(err)
 		}
+		w.closeGatedFiles()
 		w.openRS()
 		return "ok"
 	case f[0] == "bgflush" && len(f) == 1:
@@ -444,7 +614,7 @@ func (w *world) do(t *trace.W, op string) string {
 		switch strings.Fields(op)[0] {
 		case "region", "regions":
 			w.lastSave, w.pending = time.Now(), true
-		case "flush", "close", "crash", "bgflush":
+		case "flush", "close", "crash", "bgflush", "race":
 			w.pending = false
 		}
 	}
